@@ -47,6 +47,26 @@ class V:
         return f"<{type(self).__name__}>"
 
 
+class VBottom(V):
+    """Result of an ill-typed specification term (e.g. an attribute of None).  It only arises
+    under a guard that is false on that path; every predicate over it is an unconstrained
+    Boolean, so nothing can be *proved* from it."""
+
+    kind = "bottom"
+
+    def leaves(self):
+        return []
+
+    def rebuild(self, leaves):
+        return self
+
+    def __repr__(self):
+        return "Bottom"
+
+
+BOTTOM = VBottom()
+
+
 class VNone(V):
     kind = "none"
 
@@ -418,6 +438,8 @@ def dummy_like(v: V) -> V:
 
 def coerce(v: V, like: V) -> V:
     """Bring v to the leaf shape of `like` (None/T -> Optional[T], etc.)."""
+    if isinstance(v, VBottom):
+        return dummy_like(like) if not isinstance(like, VBottom) else v
     if isinstance(like, VOpt):
         if isinstance(v, VNone):
             return VOpt(True, dummy_like(like.val))
@@ -493,6 +515,8 @@ def same_shape(a: V, b: V) -> bool:
 
 def eq(a: V, b: V):
     """Python `==` on data values as a z3 Bool."""
+    if isinstance(a, VBottom) or isinstance(b, VBottom):
+        return z3.FreshConst(BOOL, "bottom")
     if isinstance(a, VRef) or isinstance(b, VRef):
         if isinstance(a, VRef) and isinstance(b, VRef):
             return z3.BoolVal(a.addr == b.addr)
